@@ -2,7 +2,7 @@
 from metapype.eml import references, validate
 from metapype.eml.exceptions import MetapypeRuleError
 from metapype.model.node import Node
-from harness.hlib import nodes, snap, snap_links, store_keys, part
+from harness.hlib import fresh, nodes, snap, snap_links, store_keys, part
 
 _P = part(20)
 LATE = _P % 10 == 1               # sources are contacts (after the referrers) instead of creators (before them)
@@ -37,7 +37,7 @@ SRC_B = [("organizationName", "Org", [])]
 def _tree(kinds, fault, fnode):
     """dataset with two identified sources and up to three referrers.
     kinds[i]: 0 no referrer, 1 plain referrer -> source A, 2 referrer with trailing role -> source A, 3 plain -> B, 4 with role -> B."""
-    Node.store.clear()
+    fresh()
     ds = Node("dataset", id="ds")
     ds.add_child(Node("title", id="t", content="T"))
     src_name, plain_ref, role_ref = ("contact", "creator", "associatedParty") if LATE else ("creator", "contact", "associatedParty")
